@@ -150,9 +150,10 @@ theorem unchanged_reports_nothing (gs : List GConfig) (hu : ∀ g ∈ gs, lastNa
 def callGroup : Call → String
   | .stop g => g | .remove g => g | .add g => g
 
-/-- **restricted_update.**  `update g1 g2 …` only ever stops, removes or adds the named groups. -/
-theorem restricted_update (valid added changed removed : List String) (hv : valid ≠ []) :
-    ∀ c ∈ updateCalls valid added changed removed, callGroup c ∈ valid := by
+/-- **restricted_update.**  `update g1 g2 …` only ever stops, removes or adds the named groups (whatever the
+    stops answer). -/
+theorem restricted_update (valid fails added changed removed : List String) (hv : valid ≠ []) :
+    ∀ c ∈ updateCalls valid fails added changed removed, callGroup c ∈ valid := by
   intro c hc
   have hsel : ∀ g, selected valid g = true → g ∈ valid := by
     intro g hg
@@ -162,21 +163,70 @@ theorem restricted_update (valid added changed removed : List String) (hv : vali
     · exact List.contains_iff_mem.mp h
   simp only [updateCalls, List.mem_append, List.mem_flatMap, List.mem_filter, List.mem_map] at hc
   rcases hc with (⟨g, ⟨_, hs⟩, hm⟩ | ⟨g, ⟨_, hs⟩, hm⟩) | ⟨g, ⟨_, hs⟩, rfl⟩
-  · simp only [List.mem_cons, List.not_mem_nil, or_false] at hm
-    rcases hm with rfl | rfl <;> exact hsel g hs
-  · simp only [List.mem_cons, List.not_mem_nil, or_false] at hm
-    rcases hm with rfl | rfl | rfl <;> exact hsel g hs
+  · split at hm
+    · simp only [List.mem_cons, List.not_mem_nil, or_false] at hm
+      subst hm; exact hsel g hs
+    · simp only [List.mem_cons, List.not_mem_nil, or_false] at hm
+      rcases hm with rfl | rfl <;> exact hsel g hs
+  · split at hm
+    · simp only [List.mem_cons, List.not_mem_nil, or_false] at hm
+      subst hm; exact hsel g hs
+    · simp only [List.mem_cons, List.not_mem_nil, or_false] at hm
+      rcases hm with rfl | rfl | rfl <;> exact hsel g hs
   · exact hsel g hs
 
-/-- the call sequence of an unrestricted update: removed groups are stopped then removed, changed groups are
-    stopped, removed and added again, added groups are added — in that order, nothing else -/
+/-- the call sequence of an unrestricted update whose stops all succeed: removed groups are stopped then removed,
+    changed groups are stopped, removed and added again, added groups are added — in that order, nothing else -/
 theorem update_sequence (added changed removed : List String) :
-    updateCalls [] added changed removed =
+    updateCalls [] [] added changed removed =
       (removed.flatMap fun g => [Call.stop g, Call.remove g]) ++
       (changed.flatMap fun g => [Call.stop g, Call.remove g, Call.add g]) ++ added.map Call.add := by
   have hf : ∀ l : List String, List.filter (selected []) l = l := by
     intro l; apply List.filter_eq_self.mpr; intro a _; simp [selected]
   simp [updateCalls, hf]
+
+/-- a group whose stop reported a failure is never removed, and is re-added only if reread listed it as added
+    (fix 4198a53: "has problems; not removing / not updating") -/
+theorem failed_stop_keeps_group (valid fails added changed removed : List String) (g : String) (hg : g ∈ fails) :
+    Call.remove g ∉ updateCalls valid fails added changed removed ∧
+    (Call.add g ∈ updateCalls valid fails added changed removed → g ∈ added) := by
+  have hc : fails.contains g = true := List.contains_iff_mem.mpr hg
+  constructor
+  · intro hm
+    simp only [updateCalls, List.mem_append, List.mem_flatMap, List.mem_filter, List.mem_map] at hm
+    rcases hm with (⟨x, _, hx⟩ | ⟨x, _, hx⟩) | ⟨x, _, hx⟩
+    · split at hx
+      · simp at hx
+      · rename_i hnf
+        simp only [List.mem_cons, List.not_mem_nil, or_false] at hx
+        rcases hx with hx | hx
+        · cases hx
+        · injection hx with hx; subst hx; exact hnf hc
+    · split at hx
+      · simp at hx
+      · rename_i hnf
+        simp only [List.mem_cons, List.not_mem_nil, or_false] at hx
+        rcases hx with hx | hx | hx
+        · cases hx
+        · injection hx with hx; subst hx; exact hnf hc
+        · cases hx
+    · cases hx
+  · intro hm
+    simp only [updateCalls, List.mem_append, List.mem_flatMap, List.mem_filter, List.mem_map] at hm
+    rcases hm with (⟨x, _, hx⟩ | ⟨x, _, hx⟩) | ⟨x, ⟨hxa, _⟩, hx⟩
+    · split at hx
+      · simp at hx
+      · simp only [List.mem_cons, List.not_mem_nil, or_false] at hx
+        rcases hx with hx | hx <;> cases hx
+    · split at hx
+      · simp at hx
+      · rename_i hnf
+        simp only [List.mem_cons, List.not_mem_nil, or_false] at hx
+        rcases hx with hx | hx | hx
+        · cases hx
+        · cases hx
+        · injection hx with hx; subst hx; exact absurd hc hnf
+    · injection hx with hx; subst hx; exact hxa
 
 /-! ### convergence of update -/
 
